@@ -145,23 +145,44 @@ theorem retry_not_stale (t t' : Nat) (h1 : t ≤ t') (h2 : t' ≤ t + 3600000) :
 
 /-! ## 4. Close -/
 
-/-- **close_deletes_partial**: with the client's nonce inside the server's window (and no transaction in
-    flight) Close removes the allocation at the server in that very step -/
-theorem close_deletes_partial (s : St) (e : Nat) (he : s.allocExp = some e) (hl : s.now < e)
-    (hn : minuteOf s.now - s.nonce ≤ nonceWindow) :
-    (step s .close).1.allocExp = none ∧ Out.count 0 ∈ (step s .close).2 := by
-  have hlife : allocLive { s with closed := true, allocWake := none, permWake := none, bindWake := none } s.now = true := by
-    simp [allocLive, he, hl]
-  have h1 : ¬ (minuteOf s.now - s.nonce > nonceWindow) := by omega
-  simp only [step, srvProc, h1, if_false, hlife, Bool.not_true, Bool.false_eq_true]
-  constructor
-  · split <;> rfl
-  · split <;> simp [allocLive]
+/-- **close_deletes_partial**: the first copy of Close's Refresh(0) that reaches the server — carrying a
+    nonce inside the server's window, for a live allocation — removes the allocation at that very instant -/
+theorem close_deletes_partial (s : St) (x : Txn) (e : Nat) (he : s.allocExp = some e) (hl : x.due < e)
+    (hn : minuteOf x.due - x.nonce ≤ nonceWindow) (hi : x.i = x.pat.a) :
+    (fireCloseTx s x).1.allocExp = none := by
+  have hlive : allocLive { s with closeTx := none } x.due = true := by simp [allocLive, he, hl]
+  have h1 : ¬ (minuteOf x.due - x.nonce > nonceWindow) := by omega
+  have hproc : srvProc { s with closeTx := none } x.due (.rf 0) x.nonce = ({ s with closeTx := none, allocExp := none }, .ok) := by
+    simp only [srvProc, h1, if_false, hlive, Bool.not_true, Bool.false_eq_true]
+  have hdead : srvProc { s with closeTx := none, allocExp := none } x.due (.rf 0) x.nonce = ({ s with closeTx := none, allocExp := none }, .dead) := by
+    simp [srvProc, h1, allocLive]
+  have hia : ¬ x.i < x.pat.a := by omega
+  have hexp : (transmit { s with closeTx := none } (.rf 0) x).1.allocExp = none := by
+    rw [transmit_allocExp _ _ _ hia, hproc]
+    split
+    · rw [hdead]
+    · rfl
+  unfold fireCloseTx
+  generalize transmit { s with closeTx := none } (.rf 0) x = T at hexp
+  obtain ⟨s1, outs, r⟩ := T
+  simp only at hexp ⊢
+  match r with
+  | some .ok => exact hexp
+  | some .stale => exact hexp
+  | some .dead => simp only; split <;> exact hexp
+  | none => simp only; split <;> exact hexp
+
+/-- …and on the default configuration, end to end: Close right after allocating, first copy lost, removes
+    the allocation by the retransmission 200 ms later -/
+def lossyClose : St × List Out :=
+  run (init { defaults 1 [] [] [] with lossRf0 := [⟨1, 0, false⟩] }) [.adv 60000, .close, .count, .adv 200, .count]
+theorem close_retransmits : lossyClose.2 = [Out.count 1, Out.resp 60200 (.rf 0) .ok, Out.count 0] := by
+  set_option maxRecDepth 100000 in decide
 
 /-- the full statement ("Close removes the allocation at once", always) is FALSE of the model — and of the
     code (finding F13): 61.5 minutes after allocating, with no peer and hence no refresh since minute 60,
-    the nonce is stale, the Refresh(0) is answered 438 and nothing retries it -/
-def staleClose : St × List Out := run (init (defaults 0 [] [] [])) [.adv 3690000, .close]
+    the nonce is stale, every copy of the Refresh(0) is answered 438 and nothing acts on it -/
+def staleClose : St × List Out := run (init (defaults 0 [] [] [])) [.adv 3690000, .close, .adv 10000, .count]
 theorem close_with_stale_nonce_keeps_allocation :
     Out.count 1 ∈ staleClose.2 ∧ Out.resp 3690000 (.rf 0) .stale ∈ staleClose.2 ∧ staleClose.1.tainted = false := by
   set_option maxRecDepth 100000 in decide
@@ -198,7 +219,7 @@ def TxOK (c : Cfg) (e : Nat) (x : Txn) : Prop :=
 /-- the allocation is live, and its handler is either waiting for a timer that fires early enough or in the
     middle of a Refresh that will be accepted early enough -/
 def AllocInv (s : St) : Prop :=
-  s.dead = false ∧ s.closed = false ∧ ∃ e, s.allocExp = some e ∧ s.now < e ∧
+  s.dead = false ∧ s.closed = false ∧ s.closeTx = none ∧ ∃ e, s.allocExp = some e ∧ s.now < e ∧
     ((∃ w, s.allocWake = some w ∧ s.allocTx = none ∧ w + dH < e ∧ e ≤ w + s.cfg.life) ∨
      (∃ x, s.allocWake = none ∧ s.allocTx = some x ∧ TxOK s.cfg e x))
 
@@ -215,14 +236,14 @@ theorem TxOK.due_lt {c : Cfg} {e : Nat} {x : Txn} (h : TxOK c e x) : x.due < e :
   omega
 
 theorem allocInv_same {s s' : St} (h : Same s s') (hi : AllocInv s) : AllocInv s' := by
-  obtain ⟨c1, c2, c3, c4, c5, c6, c7⟩ := h
-  obtain ⟨i1, i2, e, i3, i4, i5⟩ := hi
-  refine ⟨c2.trans i1, c3.trans i2, e, c4.trans i3, by rw [c5]; exact i4, ?_⟩
+  obtain ⟨c1, c2, c3, c4, c5, c6, c7, c8⟩ := h
+  obtain ⟨i1, i2, i0, e, i3, i4, i5⟩ := hi
+  refine ⟨c2.trans i1, c3.trans i2, c8.trans i0, e, c4.trans i3, by rw [c5]; exact i4, ?_⟩
   rw [c6, c7, c1]; exact i5
 
 /-- the allocation handler always has an event in the queue, and it is due before the expiry -/
 theorem alloc_root_before_expiry {s : St} (hi : AllocInv s) : ∃ e, s.allocExp = some e ∧ ∃ m ∈ roots s, m.1 < e := by
-  obtain ⟨_, _, e, he, _, h | h⟩ := hi
+  obtain ⟨_, _, _, e, he, _, h | h⟩ := hi
   · obtain ⟨w, hw, _, h1, _⟩ := h
     have hd : 0 ≤ dH := Nat.zero_le _
     exact ⟨e, he, (w, .alloc), alloc_root_mem s w hw, by simp; omega⟩
@@ -233,17 +254,17 @@ theorem off_succ_ge (i : Nat) : off i ≤ off (i + 1) := by simp [off]
 
 theorem init_inv (c : Cfg) (hc : Compatible c) : AllocInv (init c) := by
   obtain ⟨h1, _, _, h4, _⟩ := hc
-  refine ⟨rfl, rfl, c.life, rfl, ?_, Or.inl ⟨c.life / 2, rfl, rfl, h1, ?_⟩⟩
+  refine ⟨rfl, rfl, rfl, c.life, rfl, ?_, Or.inl ⟨c.life / 2, rfl, rfl, h1, ?_⟩⟩
   · show 0 < c.life; omega
   · show c.life ≤ c.life / 2 + c.life; omega
 
 /-- a timer firing: the handler starts its first Refresh attempt -/
 theorem fireAlloc_inv (s : St) (t : Nat) (hp : PatsOK s.cfg) (hi : AllocInv s) (hw : s.allocWake = some t) :
     AllocInv (startAlloc { s with allocWake := none } t 0) := by
-  obtain ⟨i1, i2, e, he, hnow, h | h⟩ := hi
+  obtain ⟨i1, i2, i0, e, he, hnow, h | h⟩ := hi
   · obtain ⟨w, hw', htx, h1, h2⟩ := h
     rw [hw] at hw'; cases hw'
-    refine ⟨i1, i2, e, he, hnow, Or.inr ⟨_, rfl, rfl, ?_⟩⟩
+    refine ⟨i1, i2, i0, e, he, hnow, Or.inr ⟨_, rfl, rfl, ?_⟩⟩
     refine ⟨pick_ok _ hp.1 _, Nat.zero_le _, by show 0 < maxAttempts; decide, ?_, by intro h; simp [newTxn] at h, ?_⟩
     · show t + (maxAttempts - 0) * dTx < e
       unfold dH at h1; simpa using h1
@@ -255,7 +276,7 @@ theorem fireAlloc_inv (s : St) (t : Nat) (hp : PatsOK s.cfg) (hi : AllocInv s) (
 /-- one transmission of the handler's Refresh -/
 theorem fireAllocTx_inv (s : St) (x : Txn) (hc : Compatible s.cfg) (hp : PatsOK s.cfg) (hi : AllocInv s) (hx : s.allocTx = some x) :
     AllocInv (fireAllocTx s x).1 := by
-  obtain ⟨i1, i2, e, he, hnow, h | h⟩ := hi
+  obtain ⟨i1, i2, i0, e, he, hnow, h | h⟩ := hi
   · obtain ⟨_, _, htx, _⟩ := h; rw [hx] at htx; cases htx
   obtain ⟨x', hwake, hx', hok⟩ := h
   rw [hx] at hx'; cases hx'
@@ -263,12 +284,12 @@ theorem fireAllocTx_inv (s : St) (x : Txn) (hc : Compatible s.cfg) (hp : PatsOK 
   have hdue := hok.due_lt
   have hdle := hok.due_le
   obtain ⟨k1, k2, k3, k4, k5, k6⟩ := hok
-  obtain ⟨f1, f2, f3, f4, f5, f6⟩ := transmit_same_but_exp { s with allocTx := none } (.rf s.cfg.life) x
+  obtain ⟨f1, f2, f3, f4, f5, f6, f7⟩ := transmit_same_but_exp { s with allocTx := none } (.rf s.cfg.life) x
   have hcase := transmit_rf { s with allocTx := none } s.cfg.life x e hlife he hdue
   unfold fireAllocTx
-  generalize hT : transmit { s with allocTx := none } (.rf s.cfg.life) x = T at f1 f2 f3 f4 f5 f6 hcase
+  generalize hT : transmit { s with allocTx := none } (.rf s.cfg.life) x = T at f1 f2 f3 f4 f5 f6 f7 hcase
   obtain ⟨s1, outs, r⟩ := T
-  simp only at f1 f2 f3 f4 f5 f6 hcase ⊢
+  simp only at f1 f2 f3 f4 f5 f6 f7 hcase ⊢
   rcases hcase with ⟨hr, hlt, hexp⟩ | ⟨hr, hexp⟩ | ⟨hr, hexp, hst⟩
   · -- the response is lost (or the request was): the transaction goes on to its next transmission
     subst hr
@@ -278,16 +299,16 @@ theorem fireAllocTx_inv (s : St) (x : Txn) (hc : Compatible s.cfg) (hp : PatsOK 
       refine ⟨k1, by simp [next]; omega, k3, by simp [next]; omega, k5, ?_⟩
       rw [f1]; omega
     rcases hexp with hexp | hexp
-    · exact ⟨f2.trans i1, f3.trans i2, e, hexp, by rw [f4]; exact hnow,
+    · exact ⟨f2.trans i1, f3.trans i2, f7.trans i0, e, hexp, by rw [f4]; exact hnow,
         Or.inr ⟨next x, f5.trans hwake, rfl, hok' e (Nat.le_refl _) k6⟩⟩
-    · exact ⟨f2.trans i1, f3.trans i2, _, hexp, by rw [f4]; show s.now < x.due + s.cfg.life; omega,
+    · exact ⟨f2.trans i1, f3.trans i2, f7.trans i0, _, hexp, by rw [f4]; show s.now < x.due + s.cfg.life; omega,
         Or.inr ⟨next x, f5.trans hwake, rfl, hok' _ k6 (Nat.le_refl _)⟩⟩
   · -- accepted: the handler returns and the next period starts now
     subst hr
     have hcl : s1.closed = false := f3.trans i2
     simp only [hcl, Bool.false_eq_true, if_false]
     obtain ⟨c1, _⟩ := hc
-    refine ⟨f2.trans i1, by first | exact hcl | rfl, _, hexp, by rw [f4]; show s.now < x.due + s.cfg.life; omega,
+    refine ⟨f2.trans i1, by first | exact hcl | rfl, f7.trans i0, _, hexp, by rw [f4]; show s.now < x.due + s.cfg.life; omega,
       Or.inl ⟨_, rfl, f6, ?_, ?_⟩⟩
     · rw [f1]; show x.due + s.cfg.life / 2 + dH < x.due + s.cfg.life; omega
     · rw [f1]; show x.due + s.cfg.life ≤ x.due + s.cfg.life / 2 + s.cfg.life; omega
@@ -305,7 +326,7 @@ theorem fireAllocTx_inv (s : St) (x : Txn) (hc : Compatible s.cfg) (hp : PatsOK 
         omega
     have hlt : x.attempt + 1 < maxAttempts := by rw [hatt]; decide
     simp only [hlt, if_true]
-    refine ⟨f2.trans i1, f3.trans i2, e, hexp, by rw [f4]; exact hnow, Or.inr ⟨_, f5.trans hwake, rfl, ?_⟩⟩
+    refine ⟨f2.trans i1, f3.trans i2, f7.trans i0, e, hexp, by rw [f4]; exact hnow, Or.inr ⟨_, f5.trans hwake, rfl, ?_⟩⟩
     refine ⟨pick_ok _ (by rw [f1]; exact hp.1) _, Nat.zero_le _, hlt, ?_, ?_, ?_⟩
     · show x.due + (maxAttempts - (x.attempt + 1)) * dTx < e
       rw [hatt] at k4 ⊢
@@ -317,44 +338,44 @@ theorem fireAllocTx_inv (s : St) (x : Txn) (hc : Compatible s.cfg) (hp : PatsOK 
 
 /-- the permission handler's transaction never disturbs the allocation (and is never told it is gone) -/
 theorem firePermTx_same (s : St) (x : Txn) (e : Nat) (he : s.allocExp = some e) (ht : x.due < e) : Same s (firePermTx s x).1 := by
-  obtain ⟨f1, f2, f3, f4, f5, f6⟩ := transmit_same_but_exp { s with permTx := none } .cp x
+  obtain ⟨f1, f2, f3, f4, f5, f6, f7⟩ := transmit_same_but_exp { s with permTx := none } .cp x
   obtain ⟨g1, g2⟩ := transmit_other { s with permTx := none } .cp x e (by intro lt h; cases h) he ht
   unfold firePermTx
-  generalize transmit { s with permTx := none } .cp x = T at f1 f2 f3 f4 f5 f6 g1 g2
+  generalize transmit { s with permTx := none } .cp x = T at f1 f2 f3 f4 f5 f6 f7 g1 g2
   obtain ⟨s1, outs, r⟩ := T
-  simp only at f1 f2 f3 f4 f5 f6 g1 g2 ⊢
-  have base : Same s s1 := ⟨f1, f2, f3, g2.trans he.symm, f4, f5, f6⟩
+  simp only at f1 f2 f3 f4 f5 f6 f7 g1 g2 ⊢
+  have base : Same s s1 := ⟨f1, f2, f3, g2.trans he.symm, f4, f5, f6, f7⟩
   match r with
-  | none => exact Same.trans base ⟨rfl, rfl, rfl, rfl, rfl, rfl, rfl⟩
+  | none => exact Same.trans base ⟨rfl, rfl, rfl, rfl, rfl, rfl, rfl, rfl⟩
   | some .ok =>
     simp only
     split
     · exact base
-    · exact Same.trans base ⟨rfl, rfl, rfl, rfl, rfl, rfl, rfl⟩
+    · exact Same.trans base ⟨rfl, rfl, rfl, rfl, rfl, rfl, rfl, rfl⟩
   | some .stale =>
     simp only
     split
-    · exact Same.trans base ⟨rfl, rfl, rfl, rfl, rfl, rfl, rfl⟩
-    · exact Same.trans base ⟨rfl, rfl, rfl, rfl, rfl, rfl, rfl⟩
+    · exact Same.trans base ⟨rfl, rfl, rfl, rfl, rfl, rfl, rfl, rfl⟩
+    · exact Same.trans base ⟨rfl, rfl, rfl, rfl, rfl, rfl, rfl, rfl⟩
   | some .dead => exact absurd rfl g1
 
 theorem fireBindTx_same (s : St) (p : Nat) (x : Txn) (e : Nat) (he : s.allocExp = some e) (ht : x.due < e) :
     Same s (fireBindTx s p x).1 := by
-  obtain ⟨f1, f2, f3, f4, f5, f6⟩ := transmit_same_but_exp { s with bindTx := s.bindTx.set p none } (.cb p) x
+  obtain ⟨f1, f2, f3, f4, f5, f6, f7⟩ := transmit_same_but_exp { s with bindTx := s.bindTx.set p none } (.cb p) x
   obtain ⟨g1, g2⟩ := transmit_other { s with bindTx := s.bindTx.set p none } (.cb p) x e (by intro lt h; cases h) he ht
   unfold fireBindTx
-  generalize transmit { s with bindTx := s.bindTx.set p none } (.cb p) x = T at f1 f2 f3 f4 f5 f6 g1 g2
+  generalize transmit { s with bindTx := s.bindTx.set p none } (.cb p) x = T at f1 f2 f3 f4 f5 f6 f7 g1 g2
   obtain ⟨s1, outs, r⟩ := T
-  simp only at f1 f2 f3 f4 f5 f6 g1 g2 ⊢
-  have base : Same s s1 := ⟨f1, f2, f3, g2.trans he.symm, f4, f5, f6⟩
+  simp only at f1 f2 f3 f4 f5 f6 f7 g1 g2 ⊢
+  have base : Same s s1 := ⟨f1, f2, f3, g2.trans he.symm, f4, f5, f6, f7⟩
   match r with
-  | none => exact Same.trans base ⟨rfl, rfl, rfl, rfl, rfl, rfl, rfl⟩
-  | some .ok => exact Same.trans base ⟨rfl, rfl, rfl, rfl, rfl, rfl, rfl⟩
+  | none => exact Same.trans base ⟨rfl, rfl, rfl, rfl, rfl, rfl, rfl, rfl⟩
+  | some .ok => exact Same.trans base ⟨rfl, rfl, rfl, rfl, rfl, rfl, rfl, rfl⟩
   | some .stale =>
     simp only
     split
-    · exact Same.trans base ⟨rfl, rfl, rfl, rfl, rfl, rfl, rfl⟩
-    · exact Same.trans base ⟨rfl, rfl, rfl, rfl, rfl, rfl, rfl⟩
+    · exact Same.trans base ⟨rfl, rfl, rfl, rfl, rfl, rfl, rfl, rfl⟩
+    · exact Same.trans base ⟨rfl, rfl, rfl, rfl, rfl, rfl, rfl, rfl⟩
   | some .dead => exact absurd rfl g1
 
 /-- **one event**: whatever is due first — any of the three timers, any transmission of any transaction —
@@ -365,10 +386,12 @@ theorem fire_inv (s : St) (t : Nat) (r : Root) (hc : Compatible s.cfg) (hp : Pat
   obtain ⟨e, he, m, hmem, hlt⟩ := alloc_root_before_expiry hi
   have hte : t < e := Nat.lt_of_le_of_lt (hle m hmem) hlt
   have hi' : AllocInv { s with now := max s.now t } := by
-    obtain ⟨i1, i2, e', he', hnow, h⟩ := hi
+    obtain ⟨i1, i2, i0, e', he', hnow, h⟩ := hi
     rw [he] at he'; cases he'
-    exact ⟨i1, i2, e, he, by show max s.now t < e; omega, h⟩
-  rcases roots_inv s t r hm with ⟨hr, hw⟩ | ⟨hr, x, hx, hd⟩ | ⟨hr, hw⟩ | ⟨hr, x, hx, hd⟩ | ⟨hr, hw⟩ | ⟨p, x, hr, hx, hd⟩
+    exact ⟨i1, i2, i0, e, he, by show max s.now t < e; omega, h⟩
+  rcases roots_inv s t r hm with ⟨hr, hw⟩ | ⟨hr, x, hx, hd⟩ | ⟨hr, hw⟩ | ⟨hr, x, hx, hd⟩ | ⟨hr, hw⟩ | ⟨p, x, hr, hx, hd⟩ | ⟨_, x, hx, _⟩
+  rotate_right
+  · exfalso; have := hi.2.2.1; rw [hx] at this; cases this
   · subst hr
     exact ⟨fireAlloc_inv { s with now := max s.now t } t hp hi' hw, rfl⟩
   · subst hr
@@ -389,8 +412,8 @@ theorem fire_inv (s : St) (t : Nat) (r : Root) (hc : Compatible s.cfg) (hp : Pat
   · subst hr
     simp only [fire]
     split
-    · exact ⟨allocInv_same ⟨rfl, rfl, rfl, rfl, rfl, rfl, rfl⟩ hi', rfl⟩
-    · exact ⟨allocInv_same ⟨rfl, rfl, rfl, rfl, rfl, rfl, rfl⟩ hi', rfl⟩
+    · exact ⟨allocInv_same ⟨rfl, rfl, rfl, rfl, rfl, rfl, rfl, rfl⟩ hi', rfl⟩
+    · exact ⟨allocInv_same ⟨rfl, rfl, rfl, rfl, rfl, rfl, rfl, rfl⟩ hi', rfl⟩
   · subst hr
     have : fire { s with now := max s.now t } t .permTx = firePermTx { s with now := max s.now t } x := by simp [fire, hx]
     rw [this]
@@ -399,7 +422,7 @@ theorem fire_inv (s : St) (t : Nat) (r : Root) (hc : Compatible s.cfg) (hp : Pat
   · subst hr
     simp only [fire, forPeers]
     have hs := forPeers_same t (List.range s.cfg.peers) { s with now := max s.now t, bindWake := some (t + s.cfg.bindP) }
-    exact ⟨allocInv_same (Same.trans ⟨rfl, rfl, rfl, rfl, rfl, rfl, rfl⟩ hs) hi', hs.1⟩
+    exact ⟨allocInv_same (Same.trans ⟨rfl, rfl, rfl, rfl, rfl, rfl, rfl, rfl⟩ hs) hi', hs.1⟩
   · subst hr
     have : fire { s with now := max s.now t } t (.bindTx p) = fireBindTx { s with now := max s.now t } p x := by
       show (match s.bindTx.getD p none with | some x => fireBindTx { s with now := max s.now t } p x | none => _) = _
@@ -413,7 +436,7 @@ theorem advanceTo_inv (c : Cfg) (hc : Compatible c) (hp : PatsOK c) (target : Na
     s.cfg = c → AllocInv s → (advanceTo target fuel s acc).1.cfg = c ∧ AllocInv (advanceTo target fuel s acc).1 := by
   intro fuel
   induction fuel with
-  | zero => intro s acc h1 h2; exact ⟨h1, allocInv_same ⟨rfl, rfl, rfl, rfl, rfl, rfl, rfl⟩ h2⟩
+  | zero => intro s acc h1 h2; exact ⟨h1, allocInv_same ⟨rfl, rfl, rfl, rfl, rfl, rfl, rfl, rfl⟩ h2⟩
   | succ n ih =>
     intro s acc h1 h2
     unfold advanceTo
@@ -430,10 +453,10 @@ theorem advanceTo_inv (c : Cfg) (hc : Compatible c) (hp : PatsOK c) (target : Na
         exact ih _ _ (hf.2.trans h1) hf.1
       · rename_i hgt
         refine ⟨h1, ?_⟩
-        obtain ⟨i1, i2, e', he', _, h⟩ := h2
+        obtain ⟨i1, i2, i0, e', he', _, h⟩ := h2
         rw [he] at he'; cases he'
         have : t ≤ m.1 := hle m hmem
-        exact ⟨i1, i2, e, he, by show target < e; omega, h⟩
+        exact ⟨i1, i2, i0, e, he, by show target < e; omega, h⟩
 
 def noClose : Op → Prop
   | .close => False
@@ -446,14 +469,15 @@ theorem step_inv (c : Cfg) (hc : Compatible c) (hp : PatsOK c) (s : St) (op : Op
   | wr p =>
     simp only [step]
     split
-    · exact ⟨h1, allocInv_same ⟨rfl, rfl, rfl, rfl, rfl, rfl, rfl⟩ h2⟩
+    · exact ⟨h1, allocInv_same ⟨rfl, rfl, rfl, rfl, rfl, rfl, rfl, rfl⟩ h2⟩
     · exact ⟨h1, h2⟩
   | pw p =>
     simp only [step]
     split
-    · exact ⟨h1, allocInv_same ⟨rfl, rfl, rfl, rfl, rfl, rfl, rfl⟩ h2⟩
+    · exact ⟨h1, allocInv_same ⟨rfl, rfl, rfl, rfl, rfl, rfl, rfl, rfl⟩ h2⟩
     · exact ⟨h1, h2⟩
   | close => exact absurd hop (by simp [noClose])
+  | count => exact ⟨h1, h2⟩
 
 theorem run_inv (c : Cfg) (hc : Compatible c) (hp : PatsOK c) : ∀ (ops : List Op) (s : St), (∀ op ∈ ops, noClose op) →
     s.cfg = c → AllocInv s → AllocInv (run s ops).1 := by
@@ -475,7 +499,7 @@ theorem run_inv (c : Cfg) (hc : Compatible c) (hp : PatsOK c) : ∀ (ops : List 
 theorem alloc_never_dies (c : Cfg) (hc : Compatible c) (hp : PatsOK c) (ops : List Op) (hops : ∀ op ∈ ops, noClose op) :
     (run (init c) ops).1.dead = false ∧
     ∃ e, (run (init c) ops).1.allocExp = some e ∧ (run (init c) ops).1.now < e := by
-  obtain ⟨h1, _, e, he, hnow, _⟩ := run_inv c hc hp ops (init c) hops rfl (init_inv c hc)
+  obtain ⟨h1, _, _, e, he, hnow, _⟩ := run_inv c hc hp ops (init c) hops rfl (init_inv c hc)
   exact ⟨h1, e, he, hnow⟩
 
 /-! non-vacuity: the library defaults with the worst admissible loss meet the hypotheses, and a two-hour
